@@ -453,6 +453,18 @@ CaseResult run_ef(const RunCtx &ctx, TapeReader &t, unsigned size_hint) {
     {
         unsigned wl = idx->ef.wl;
         res.label(wl == 0 ? "ef_wl_0" : wl < 8 ? "ef_wl_1_7" : wl < 24 ? "ef_wl_8_23" : "ef_wl_ge24");
+        // sizes of the succinct structures relative to their block arithmetic (64-entry blocks, 4096-entry superblocks, powers of two)
+        size_t hs = idx->ef.high.size(), ones = idx->ef.low.size();
+        if (hs >= 8 && ((hs - 2) & (hs - 3)) == 0) res.label("ef_high_size_2^t+2");
+        else if (hs >= 8)
+            for (int dd = -4; dd <= 4; ++dd)
+                if (hs + dd >= 4 && ((hs + dd) & (hs + dd - 1)) == 0) {
+                    res.label("ef_high_size_within_4_of_pow2");
+                    break;
+                }
+        if (ones % 64 == 1) res.label("ef_ones_1_mod_64");
+        if (ones >= 4096 && ones % 4096 == 0) res.label("ef_ones_multiple_of_4096");
+        if (ones >= 65 && ones % 64 == 1 && hs >= 8 && ((hs - 2) & (hs - 3)) == 0) res.label("ef_ones_ge65_1_mod_64_and_high_2^t+2");
     }
 
     std::vector<K> queries = gen_queries<K>(keys, meta, Eps, false, true);
